@@ -37,7 +37,7 @@ the key's record was appended whole — the data is retrievable (C02 read-back).
 theorem fault_success_is_truthful (fl : Flavour) (key : Bytes) (o : WriteOpts) (chunks : List Bytes)
     (b0 : Bytes) (fs : FS) (hv : ContentValid cfg cache fs)
     (hb : BucketIs fs (bucketPath cfg cache key) b0) (plan : Nat → Option Fault) :
-    StreamPost cfg cache o chunks (runFault env plan (writeStream cfg cache fl (some key) o chunks) fs 0).1
+    StreamPost cfg cache (some key) o chunks (runFault env plan (writeStream cfg cache fl (some key) o chunks) fs 0).1
         (runFault env plan (writeStream cfg cache fl (some key) o chunks) fs 0).2.1 ∧
     BucketPost cfg cache key o chunks b0 (runFault env plan (writeStream cfg cache fl (some key) o chunks) fs 0).1
         (runFault env plan (writeStream cfg cache fl (some key) o chunks) fs 0).2.1 :=
